@@ -520,6 +520,8 @@ func runC03(h *H) {
 		}
 		h.Count(fmt.Sprintf("wire_len_le_%d", bucket(len(wire))), 1)
 	}
+	// decoding into a recycled target (spare capacity holding old elements) = decoding into a fresh one
+	h.protoRecycle()
 }
 
 func bucket(n int) int {
@@ -1163,6 +1165,8 @@ func runC07(h *H) {
 		h.DoRisky("proto.alloc", ts, hx(b))
 		h.Do("proto.scan", hx(b))
 	}
+	// nesting limit (recursive types, counting rule against the model)
+	h.protoDeep()
 }
 
 // zeroLeaves copies v with every scalar leaf set to its zero value; containers keep their shape (map keys, lengths,
